@@ -336,7 +336,7 @@ class Ctx:
         """Build harness/cmd/vh against the current working tree of the repo. Returns path or None
         (build failure is reported as a violation: the tie to the code cannot be established)."""
         hdir = os.path.join(VERIF, "harness")
-        name = "vh-" + tags.replace(",", "-") + ("-race" if race else "")
+        name = "vh-" + self.prop + "-" + tags.replace(",", "-") + ("-race" if race else "")
         key = hashlib.sha1(self.repo.encode()).hexdigest()[:8]
         bindir = os.path.join(WORK, "bin-" + key)
         os.makedirs(bindir, exist_ok=True)
@@ -351,11 +351,26 @@ class Ctx:
             env = dict(GOENV)
             if race:
                 env["CGO_ENABLED"] = "1"
-            cmd = ["go", "build", "-modfile=" + os.path.join(moddir, "go.mod"), "-tags", tags, "-o", out]
+            base = ["go", "build", "-modfile=" + os.path.join(moddir, "go.mod"), "-tags", tags, "-o", out]
             if race:
-                cmd.append("-race")
-            cmd.append("./cmd/vh")
-            rc, log = sh(cmd, cwd=hdir, env=env, timeout=1200)
+                base.append("-race")
+            # Engines of all properties live in one package; a file of ANOTHER property that does not
+            # compile must not fail this check: files named in compile errors are left out and the
+            # build retried (an engine that is missing as a result makes its own check fail loudly).
+            allfiles = sorted(f for f in os.listdir(os.path.join(hdir, "cmd", "vh"))
+                              if f.endswith(".go") and not f.endswith("_test.go"))
+            excluded = set()
+            for _attempt in range(6):
+                files = [os.path.join("cmd", "vh", f) for f in allfiles if f not in excluded]
+                rc, log = sh(base + files, cwd=hdir, env=env, timeout=1200)
+                if rc == 0:
+                    break
+                culprits = set(re.findall(r"cmd/vh/([A-Za-z0-9_]+\.go):\d+", log)) - {"main.go"} - excluded
+                if not culprits:
+                    break
+                excluded |= culprits
+            if excluded and rc == 0:
+                self.note("harness built without non-compiling engine files: %s" % sorted(excluded))
         if rc != 0:
             self.obligation("harness-build", "build", False, log[-1500:])
             self.violation("harness does not build against the working tree (hooks or exported API changed)",
